@@ -2,7 +2,7 @@
 from world import amounts, enc_f64, dec_f64, f64_next, enc_dec, dec_dec
 
 ID = "C09"
-LEAN_MODULES = ["QtyModel.Props.C09", "QtyModel.Props.C09Keys", "QtyModel.Props.TieFit", "QtyModel.Props.TieSymbol", "QtyModel.Props.TieAnalyze", "QtyModel.Props.TieCodegen"]
+LEAN_MODULES = ["QtyModel.Props.C09", "QtyModel.Props.C09Keys", "QtyModel.Props.TieFit", "QtyModel.Props.TieSymbol", "QtyModel.Props.TieAnalyze", "QtyModel.Props.TieCodegen", "QtyModel.Props.Bridge"]
 HARNESS_GROUPS = ()
 # kinds of difference in the macro-level correspondence (tools/macrofront.py) that are failing inputs here
 MACRO_PARTS = ("units", "consts", "variants")
